@@ -828,9 +828,13 @@ def main(ck: Check):
                        rng.choice([ref_seed] + other_seeds), 900))
     outs = {}
     budget2 = ck.budget_s - (time.time() - t_start) - (25 if quick else 120)
-    for args, out in pmap(sub, stage2, max(75.0, budget2)):
+    for args, out in pmap(sub, stage2, max(150.0, budget2)):
         if args is None:
-            raise TimeoutError(f"batch runs: {out}")
+            # a slow machine: what finished is judged, what did not is named in the evidence (never a verdict by itself)
+            ck.notes.append(f"budget reached in the batch runs: {out}")
+            if out["done"] * 2 < out["total"]:
+                raise TimeoutError(f"batch runs: {out}")
+            continue
         if "crash" in out:
             raise RuntimeError(f"runner crashed in {out['tag']}: {out['crash']}")
         outs[out["tag"]] = out
